@@ -52,7 +52,7 @@ def run(ctx):
     samples = []
     for s in samp[:2]:
         samples.append(dict(abstract=dict(segs=s["vec"]["segs"], allowed=[e["allowed"] for e in s["vec"]["exp"]]),
-                            source=s["vec"]["conc"]["src"], after_cli_d=s["got"], observed_tags=s["obs"]["tags"]))
+                            source=s["vec"]["conc"]["src"], after_cli_d=s.get("got"), observed_tags=(s.get("obs") or {}).get("tags")))
     if not samples:
         samples = [vecs[len(vecs) // 2]]
     cov = dict(
